@@ -320,7 +320,10 @@ fn run_edge_inner(scn: &Scenario, hist: &[Ev], ev: Option<&Ev>, mut ex: Exec) ->
 			let prefix_obs: Vec<String> = models.iter().map(|m| crate::observe::observe_model(m, &scn.universe)).collect();
 			let ctx = crate::crashmc::Ctx { cfg: &scn.cfg, universe: scn.universe.clone(), prefix_obs, prefix: &models, accepted: &ex.accepted_txs, crash: cc, property: &scn.property };
 			let from = if ev.is_none() { if cc.creation { 0 } else { ops.len() } } else { ops_before };
-			let (lo0, lo1) = if scn.pm { (pm_before.synced, pm_before.logged) } else { (0, 0) };
+			// only flush_one (stage F, and the drop inside reopen / drain) makes appended records durable; the
+			// fsync of a cleaned (truncated) log file in stage K says nothing about the file being appended
+			let syncs_wal = matches!(ev, Some(Ev::Stage(St::F)) | Some(Ev::Reopen) | Some(Ev::Drain));
+			let (lo0, lo1) = if scn.pm { (pm_before.synced, if syncs_wal { pm_before.logged } else { pm_before.synced }) } else { (0, 0) };
 			let what = format!("during {}", ev.map_or("creation".to_string(), |e| e.short()));
 			crate::crashmc::enumerate(&ctx, &ops, from, lo0, lo1, models.len() - 1, &what, &mut crash_stats)?;
 		}
